@@ -51,4 +51,24 @@ def Crypto.kdf (C : Crypto) (alg : Hash) (secret label context : Bytes) (length 
 def Crypto.kdfConcat (C : Crypto) (alg : Hash) (shared algId partyU partyV : Bytes) (length : Nat) : Bytes :=
   C.concatKdf alg shared (algId ++ partyU ++ partyV) length
 
+/-! ### the third-party calls the `Crypto` parameters stand for, as (argument, source expression) tables.
+    `harness/extract.py` (kind "callkw") regenerates each table from `_crypto.py` on every run: positional arguments are `#0`, `#1`, …,
+    keywords by name (sorted), and `local:x` is the expression a local passed on was assigned from.  So `rlen=4`, the counter
+    location, the order of the ConcatKDF other-info parts, the 256-bit CEK, the 12-octet GCM nonce and the absent associated data
+    are obligations, not comments. -/
+namespace CryptoCalls
+def kbkdf : List (String × String) :=
+  [("algorithm", "algorithm"), ("context", "context"), ("fixed", "None"), ("label", "label"), ("length", "length"), ("llen", "4"),
+   ("location", "CounterLocation.BeforeFixed"), ("mode", "Mode.CounterMode"), ("return", "kdf.derive(secret)"), ("rlen", "4")]
+def concatKdf : List (String × String) :=
+  [("#0", "algorithm"), ("length", "length"), ("local:otherinfo", "b''.join([algorithm_id, party_uinfo, party_vinfo])"), ("otherinfo", "otherinfo"),
+   ("return", "ConcatKDFHash(algorithm, length=length, otherinfo=otherinfo).derive(shared_secret)")]
+def cekGenerateKey : List (String × String) := [("#0", "256")]
+def cekGenerateNonce : List (String × String) := [("#0", "12")]
+def gcmDecrypt : List (String × String) := [("#0", "iv"), ("#1", "value"), ("#2", "None"), ("local:cipher", "AESGCM(cek)"), ("local:iv", "reader.read_octet_string()")]
+def gcmEncrypt : List (String × String) := [("#0", "iv"), ("#1", "value"), ("#2", "None"), ("local:cipher", "AESGCM(cek)"), ("local:iv", "reader.read_octet_string()")]
+def keyUnwrap : List (String × String) := [("#0", "kek"), ("#1", "value")]
+def keyWrap : List (String × String) := [("#0", "kek"), ("#1", "value")]
+end CryptoCalls
+
 end DpapiNg
